@@ -2,12 +2,14 @@
 (* Implementation-shaped explorer for C03: calcAudioTimeFromRef, calcAudioSegRecipe and the sample-interval
    construction of createAudioSeg (cmd/livesim2/app/audiosegmentation.go) transcribed statement by statement,
    run on small layouts and judged by the oracle operators of AudioResegOps.
-   FixEndIdx = FALSE is the code as it is; TRUE applies proposed_fixes/C03-endidx-inside-one-vod-segment.diff.
+   FixEndIdx = FixPadding = TRUE is the current code (/repo commits 9a9819e and 9a9f787); FALSE restores the
+   original statements (kept as documented design counterexamples, spec/mc/AudioResegImpl_orig_*.cfg).
    Absolute times are used (small constants, few loops): no pairs needed here.                                  *)
 EXTENDS AudioResegOps, TLC
 CONSTANTS Layouts,    \* set of <<sc, au, aseg>>, aseg = frames per VoD audio segment (sum = au.A)
           MaxLoops,
-          FixEndIdx   \* BOOLEAN
+          FixEndIdx,  \* BOOLEAN: end index of an interval ending inside a VoD segment relative to the segment start (9a9819e)
+          FixPadding  \* BOOLEAN: an interval at or after the end of the VoD audio yields only fill samples (9a9f787)
 VARIABLES lay, k, i, out      \* out = what the transcribed code serves for segment (k, i)
 vars == <<lay, k, i, out>>
 sc == lay[1]
@@ -48,7 +50,12 @@ StartNr(r, x) == IF x < 0 \/ x >= NSeg THEN -1 ELSE IF SegS(x) > r.inStart THEN 
 RECURSIVE Walk(_, _, _)
 Walk(r, x, st) ==
    IF x > NSeg - 1 THEN st
-   ELSE IF SegE(x) <= r.inStart THEN Walk(r, x + 1, st)
+   ELSE IF SegE(x) <= r.inStart
+        THEN IF FixPadding /\ x = NSeg - 1
+             THEN LET n == (SegE(x) - SegS(x)) \div au.F
+                      fillTime == r.inEnd - r.inStart
+                  IN Walk(r, x + 1, [st EXCEPT !.it = Append(st.it, Itvl(x, n, n, fillTime \div au.F)), !.coll = st.coll + fillTime])
+             ELSE Walk(r, x + 1, st)
    ELSE LET it1 == IF st.next < SegE(x) /\ Len(st.it) = 0
                    THEN <<Itvl(x, (st.next - SegS(x)) \div au.F, 0, 0)>> ELSE st.it
             n   == Len(it1)
@@ -83,7 +90,8 @@ Emit(it, n) ==   \* frames of intervals 1..n, or <<-1>> when a slice expression 
 \* result: [st |-> "ok" | "err" | "panic", start, frames]
 Serve(refStart, refEnd) ==
    LET r   == Recipe(refStart, refEnd)
-       sn0 == r.inStart \div RepDur
+       sn00 == r.inStart \div RepDur
+       sn0 == IF FixPadding /\ sn00 > NSeg - 1 THEN NSeg - 1 ELSE sn00
        sn  == StartNr(r, sn0)
    IN IF sn < 0 THEN [st |-> "panic", start |-> r.start, frames |-> <<>>]
       ELSE LET w == Walk(r, sn, [it |-> <<>>, next |-> r.inStart, coll |-> 0, bad |-> ""])
